@@ -29,7 +29,7 @@ def show_ops(ops):
             out.append(f"SLEEP({o[1]})")
         elif o[0] == "HIDE":
             out.append(f"HIDE(seg#{o[1]},t{o[2]})")
-        elif o[0] in ("BGC", "JOINC", "JOIN", "SETTLE", "UNHIDE", "CSNAP", "DRAIN", "KR"):
+        elif o[0] in ("BGC", "JOINC", "JOIN", "SETTLE", "UNHIDE", "CSNAP", "DRAIN", "KR", "FAILIDX", "UNFAILIDX"):
             out.append(o[0])
         elif o[0] == "WAITMORE":
             out.append(f"WAITMORE({o[1]},{o[2]})")
@@ -89,7 +89,7 @@ def diffs(c, impl, model):
     # a compaction round that fails on an injected read fault (HIDE) can leave its partly written output directory
     # behind; without a CWrite label the model has no such directory, so the directory listing is not compared in
     # these histories (what is read, the index, the live list and the WAL still are)
-    faulted = any(tuple(o)[0] == "HIDE" for o in c["ops"])
+    faulted = any(tuple(o)[0] in ("HIDE", "FAILIDX") for o in c["ops"])
     for n, (o, m) in enumerate(zip(impl["obs"], ms)):
         for d in shardlib.compare_obs(o, m, c["ntypes"], c["nctx"]):
             if faulted and d.startswith("dirs:"):
